@@ -329,6 +329,7 @@ impl Sim {
 
     /// hook-based structural invariants evaluated after every operation
     fn check_hooks(&self, snap: &VerifSnapshot, out: &mut Vec<Finding>) {
+        let start = out.len();
         let awaiting: Vec<[u8; 12]> = self.awaiting().iter().map(|i| self.reqs[*i].tid).collect();
         for r in self.reqs.iter().filter(|r| r.fin.is_some()) {
             if snap.outstanding.iter().any(|(t, _, _)| tid_of(t) == r.tid) {
@@ -374,6 +375,9 @@ impl Sim {
                     }
                 }
             }
+        }
+        for f in out[start..].iter_mut() {
+            f.soft = true;
         }
     }
 
@@ -484,6 +488,10 @@ pub fn judge_findings(findings: Vec<Finding>, focus: &[&str], ctx: &Ctx, st: &mu
         }
         if in_focus {
             return Err((f.tags.join(","), f.msg));
+        }
+        if f.soft {
+            st.class(&format!("hook-observation-outside-focus:{}", f.tags.join(",")));
+            continue;
         }
         if diverged.is_none() {
             diverged = Some(f.tags.join(","));
